@@ -34,19 +34,51 @@ def quiet():
 
 
 # ----- Gaussians -----------------------------------------------------------------------------------------------
-def gauss_kwargs(spec):
+LAYOUTS = ("f64c", "int", "f32", "fortran", "strided", "readonly")
+
+
+def layout(a, lay, param=False):
+    """The SAME numbers in another data layout / type (C06 round 7; `lay` None / "f64c": plain C-contiguous float64).
+    int: integer dtype when every entry is an integer; f32: float32 (all numbers of the lattice are dyadic: exact) - not for
+    the parameters of a Gaussian (`param`), whose inverse / Cholesky factor would then legitimately be computed in single
+    precision; fortran: column-major; strided: non-contiguous view (every second entry of a larger buffer filled with
+    NaN in between); readonly: writeable flag cleared."""
+    if lay in (None, "f64c"):
+        return a
+    if np.isscalar(a):
+        return int(a) if (lay == "int" and float(a) == int(a)) else a
+    a = np.array(a, dtype=float)
+    if lay == "int":
+        return a.astype(int) if np.all(a == np.round(a)) else a
+    if lay == "f32":
+        return a if param else a.astype(np.float32)
+    if lay == "fortran":
+        return np.asfortranarray(a)
+    if lay == "strided":
+        big = np.full(tuple(2 * k for k in a.shape), np.nan)
+        view = big[tuple(slice(None, None, 2) for _ in a.shape)]
+        view[...] = a
+        return view
+    if lay == "readonly":
+        a = a.copy()
+        a.setflags(write=False)
+        return a
+    raise MachineryError("unknown layout %r" % (lay,))
+
+
+def gauss_kwargs(spec, lay=None):
     """{form: parameter} for cuqi.distribution.Gaussian from a TLC noise / prior record."""
     p = qval(spec["param_q"])
     if spec["shape"] == "scalar":
         val = float(p)
     else:
         val = np.array(p, dtype=float)
-    return {spec["form"]: val}
+    return {spec["form"]: layout(val, lay, param=True)}
 
 
-def linear_model(A, kind, domain_geometry=None):
+def linear_model(A, kind, domain_geometry=None, lay=None):
     import cuqi
-    A = np.array(A, dtype=float)
+    A = layout(np.array(A, dtype=float), lay)
     m, na = A.shape
     if kind == "matrix":
         if domain_geometry is None:
@@ -61,18 +93,19 @@ def build_prior(case, n, geometry=None, name="x"):
     an array-like mean, so it always gets the vector."""
     import cuqi
     pr = case["prior"]
-    mu = np.array(pr["blocks"][0]["mu"], dtype=float)
+    lay = case.get("lay")
+    mu = layout(np.array(pr["blocks"][0]["mu"], dtype=float), lay)
     if pr["kind"] == "gmrf":
         with quiet():
             return cuqi.distribution.GMRF(mu, float(pr["delta"]), bc_type="zero", order=pr["order"],
                                           geometry=geometry if geometry is not None else n, name=name)
     if pr["kind"] == "joint":
-        means = [np.array(b["mu"], dtype=float) for b in pr["blocks"]]
-        sq = [np.array(b["L"], dtype=float) for b in pr["blocks"]]
+        means = [layout(np.array(b["mu"], dtype=float), lay) for b in pr["blocks"]]
+        sq = [layout(np.array(b["L"], dtype=float), lay, param=True) for b in pr["blocks"]]
         return cuqi.distribution.JointGaussianSqrtPrec(means, sq, geometry=geometry if geometry is not None else n, name=name)
-    kw = gauss_kwargs(pr)
+    kw = gauss_kwargs(pr, lay)
     if case["mk"] == "scalar":
-        return cuqi.distribution.Gaussian(float(mu[0]), geometry=geometry if geometry is not None else n, name=name, **kw)
+        return cuqi.distribution.Gaussian(layout(float(mu[0]), lay), geometry=geometry if geometry is not None else n, name=name, **kw)
     if geometry is not None:
         return cuqi.distribution.Gaussian(mu, geometry=geometry, name=name, **kw)
     return cuqi.distribution.Gaussian(mu, name=name, **kw)
@@ -85,10 +118,10 @@ def build_rto_posterior(case):
     x = build_prior(case, n)
     ys, data = [], {}
     for q in range(case["nl"]):
-        model = linear_model(case["A"][q], case["mdl"])
+        model = linear_model(case["A"][q], case["mdl"], lay=case.get("lay"))
         name = "y%d" % (q + 1)
-        ys.append(cuqi.distribution.Gaussian(model(x), name=name, **gauss_kwargs(case["noise"][q])))
-        data[name] = np.array(case["y"][q], dtype=float)
+        ys.append(cuqi.distribution.Gaussian(model(x), name=name, **gauss_kwargs(case["noise"][q], case.get("lay"))))
+        data[name] = layout(np.array(case["y"][q], dtype=float), case.get("lay"))
     return cuqi.distribution.JointDistribution(x, *ys)(**data)
 
 
